@@ -22,7 +22,7 @@ pub fn spec() -> Spec {
     Spec {
         prop: "C13",
         level: "exploration",
-        rule: "Layer 1 (exhaustive small scope): BFS over {set a, set b, unset, advance 1/10/11 blocks, rollback to cur-k for k=0..12} on the real BlockHistoryCacheData from several base heights, states canonicalised relative to the current block, against a never-pruned model: latest, value after rollback (exact inside the window of the highest block seen, panic-or-exact below it), <=11 versions, is_old soundness, encode/decode identity. Layer 2: random sequences on the real BlockCachedDatabase over RocksDB (3 key types) with set/unset/commit(next)/clear/reopen/rollback/latest/get_range/all vs a model keyed by encoded key; range scans must be complete and in key order. Layer 3: BlockDatabase vs a BTreeMap model. Non-trivial = distinct canonical (implementation, model) states (layer 1); sequences with a rollback crossing >=1 version and a range scan returning >=2 rows (layers 2-3).",
+        rule: "Layer 1 (exhaustive small scope): BFS over {set a, set b, unset, advance 1/10/11 blocks, rollback to cur-k for k=0..12} on the real BlockHistoryCacheData from several base heights, states canonicalised relative to the current block, against a never-pruned model: latest, value after rollback (exact inside the window of the highest block seen, panic-or-exact below it), <=11 versions, is_old soundness, encode/decode identity. Layer 2: random sequences on the real BlockCachedDatabase over RocksDB (3 key types) with set/unset/commit(next)/clear/reopen/rollback/latest/get_range/all vs a model keyed by encoded key; range scans must be complete and in key order. Layer 3: BlockDatabase vs a BTreeMap model. Wide tables: 300..4100 keys written long ago, idle blocks with commits (old history rows are purged), a few keys changed in two consecutive blocks around row numbers 1023/1024/1025/2048, the last block rolled back, every key compared, also after reopening. Non-trivial = distinct canonical (implementation, model) states (layer 1); sequences with a rollback crossing >=1 version and a range scan returning >=2 rows (layers 2-3).",
         assumptions: vec![
             "documented preconditions respected: block numbers never decrease except by rollback/discard; commit gets the next height; rollback depth is bounded by the caller (deeper rollbacks are tried separately and must be panic-or-exact at history level)".into(),
         ],
@@ -583,6 +583,156 @@ fn block_db_case(ctx: &WorkerCtx, rep: &mut WorkerReport, case_seed: u64, steps:
     rpc::remove_dir(&dir);
 }
 
+/// Wide table: thousands of keys written long ago (their history rows are purged at later commits),
+/// then a few keys change in two consecutive blocks and the last block is rolled back. Every key is
+/// compared with the model afterwards (and again after reopening).
+fn wide_table_case(ctx: &WorkerCtx, rep: &mut WorkerReport, case_seed: u64) {
+    let mut rng = Rng::new(case_seed);
+    let dir = rpc::fresh_dir("C13");
+    let open = |d: &std::path::Path| BlockCachedDatabase::<U64ED, U64ED, BlockHistoryCacheData<U64ED>>::new(d, "wide").expect("open table");
+    let mut db = Some(open(&dir));
+    let n = *rng.pick(&[300u64, 1023, 1024, 1025, 1030, 2050, 4100]) + rng.below(3);
+    // keys are spread so that later writes fall between, before and after old ones in key order
+    let key = |i: u64| -> U64ED { (i * 10).into() };
+    let mut model: BTreeMap<u64, Vec<(u64, Option<u64>)>> = BTreeMap::new();
+    let mut trace: Vec<String> = vec![format!("{} keys", n)];
+    macro_rules! fail {
+        ($sig:expr, $what:expr) => {{
+            violation(rep, "C13", ctx.seed, $sig, $what, json!({"layer": "wide", "case_seed": case_seed, "ops": trace}));
+            drop(db.take());
+            rpc::remove_dir(&dir);
+            return;
+        }};
+    }
+    macro_rules! guard {
+        ($name:expr, $e:expr) => {
+            match catch_unwind(AssertUnwindSafe(|| $e)) {
+                Ok(v) => v,
+                Err(_) => fail!(&format!("wide-panic:{}", $name), format!("{} panicked on a table of {} keys", $name, n)),
+            }
+        };
+    }
+    let mut cur = 1u64;
+    {
+        let t = db.as_mut().unwrap();
+        for i in 0..n {
+            // a tenth of the old keys is written a few blocks later than the rest
+            let b = if i % 10 == 3 { cur + 2 } else { cur };
+            let _ = b;
+            if guard!("set", t.set(cur, &key(i), (1000 + i).into())).is_err() {
+                fail!("wide-set-error", "set returned an error".to_string());
+            }
+            model.entry(i * 10).or_default().push((cur, Some(1000 + i)));
+        }
+        trace.push(format!("set all @{}", cur));
+        if guard!("commit", t.commit(cur + 1)).is_err() {
+            fail!("wide-commit-error", "commit returned an error".to_string());
+        }
+        trace.push(format!("commit({})", cur + 1));
+        cur += 1;
+    }
+    // idle blocks, some with a commit: the old rows age out of the window
+    let idle = rng.range(9, 14);
+    for _ in 0..idle {
+        cur += 1;
+        if rng.chance(1, 2) {
+            let t = db.as_mut().unwrap();
+            // a fresh key now and then so that the commits have something to write
+            let extra = n * 10 + 5 + cur;
+            let _ = guard!("set", t.set(cur, &extra.into(), cur.into()));
+            model.entry(extra).or_default().push((cur, Some(cur)));
+            if guard!("commit", t.commit(cur + 1)).is_err() {
+                fail!("wide-commit-error", "commit returned an error".to_string());
+            }
+            trace.push(format!("set {} @{}, commit({})", extra, cur, cur + 1));
+        }
+    }
+    // two consecutive blocks change a few keys: existing ones (anywhere in key order, in particular
+    // around multiples of 1024 rows), brand-new ones between them, and deletions
+    let b1 = cur + 1;
+    let b2 = cur + 2;
+    let mut touched: Vec<u64> = Vec::new();
+    for j in [0u64, 1, 2, 1022, 1023, 1024, 1025, 2047, 2048, 2049, n - 1] {
+        if j < n {
+            touched.push(j * 10);
+            touched.push(j * 10 + 5); // a new key right after it
+        }
+    }
+    for _ in 0..20 {
+        touched.push(rng.below(n) * 10 + if rng.chance(1, 3) { 5 } else { 0 });
+    }
+    touched.sort();
+    touched.dedup();
+    for (blk, base) in [(b1, 7_000_000u64), (b2, 9_000_000u64)] {
+        let t = db.as_mut().unwrap();
+        for k in &touched {
+            if blk == b2 && k % 4 == 1 {
+                continue;
+            }
+            if blk == b2 && k % 7 == 0 {
+                let _ = guard!("unset", t.unset(blk, &(*k).into()));
+                model.entry(*k).or_default().push((blk, None));
+            } else {
+                let _ = guard!("set", t.set(blk, &(*k).into(), (base + k).into()));
+                model.entry(*k).or_default().push((blk, Some(base + k)));
+            }
+        }
+        trace.push(format!("{} keys changed @{}", touched.len(), blk));
+        if rng.chance(2, 3) || blk == b2 {
+            if guard!("commit", t.commit(blk + 1)).is_err() {
+                fail!("wide-commit-error", "commit returned an error".to_string());
+            }
+            trace.push(format!("commit({})", blk + 1));
+        }
+    }
+    // roll the last block back
+    {
+        let t = db.as_mut().unwrap();
+        match guard!("reorg", t.reorg(b1)) {
+            Ok(()) => {}
+            Err(e) => fail!("wide-rollback-error", format!("rollback by one block returned an error: {}", e)),
+        }
+        trace.push(format!("rollback({})", b1));
+        for h in model.values_mut() {
+            h.retain(|(b, _)| *b <= b1);
+        }
+    }
+    for phase in ["after rollback", "after reopen"] {
+        if phase == "after reopen" {
+            drop(db.take());
+            db = Some(open(&dir));
+        }
+        let t = db.as_mut().unwrap();
+        let want: Vec<(u64, u64)> = model.iter().filter_map(|(k, h)| h.last().and_then(|(_, v)| *v).map(|v| (*k, v))).collect();
+        let got = match guard!("all", t.all()) {
+            Ok(g) => g,
+            Err(e) => fail!("wide-all-error", format!("all returned an error: {}", e)),
+        };
+        let mut got: Vec<(u64, u64)> = got.into_iter().map(|(k, v)| (k.uint.to::<u64>(), v.uint.to::<u64>())).collect();
+        got.sort();
+        rep.evaluations += 1;
+        if got != want {
+            let bad: Vec<String> = want.iter().filter(|w| !got.contains(w)).take(5).map(|(k, v)| format!("key {} should be {}", k, v)).collect();
+            fail!("wide-all", format!("{}: full scan of a {}-key table differs from the model ({} rows vs {}): {:?}", phase, n, got.len(), want.len(), bad));
+        }
+        for k in &touched {
+            let got = match guard!("latest", t.latest(&(*k).into())) {
+                Ok(g) => g.map(|v| v.uint.to::<u64>()),
+                Err(e) => fail!("wide-latest-error", format!("latest returned an error: {}", e)),
+            };
+            rep.evaluations += 1;
+            let want = model.get(k).and_then(|h| h.last()).and_then(|(_, v)| *v);
+            if got != want {
+                fail!("wide-latest", format!("{}: point read of key {} in a {}-key table is {:?}, the model says {:?}", phase, k, n, got, want));
+            }
+        }
+    }
+    rep.nontrivial(format!("wide:{}-keys:{}-idle", n / 100 * 100, idle));
+    rep.count("wide_table_cases", 1);
+    drop(db.take());
+    rpc::remove_dir(&dir);
+}
+
 pub fn worker(ctx: &WorkerCtx) -> WorkerReport {
     rpc::install_panic_hook();
     let mut rep = WorkerReport::default();
@@ -595,6 +745,10 @@ pub fn worker(ctx: &WorkerCtx) -> WorkerReport {
     }
     if ctx.shard as usize == bases.len() {
         deep_rollback_after_purge(ctx, &mut rep);
+    }
+    for _ in 0..(if ctx.thorough() { 6 } else { 1 }) {
+        let cs = rng.next();
+        wide_table_case(ctx, &mut rep, cs);
     }
     let (seqs, steps) = if ctx.thorough() { (160, 400) } else { (48, 300) };
     for i in 0..seqs {
